@@ -60,7 +60,7 @@ class C13(Prop):
         "thorough": [("share", 3600000), ("cancel", 3600000), ("sweep", 300000)],
     }
     rule_text = (
-        "one case = 2..4 callers over 1..2 keys (function or method flavour), limit 1..2, expiration none/1s, invocation "
+        "one case = 2..6 callers over 1..3 keys (function or method flavour), limit 1..2, expiration none/1s, invocation "
         "gates plain or held, invocation outcome value/exception, optional clock jump past expiry and other-key call "
         "(eviction) in flight + schedule (arrival iteration of every caller, gate release order, cancel instants); "
         "'sweep' injects one cancel of a drawn caller at EVERY loop iteration of the fault-free twin; distinct = "
@@ -86,8 +86,9 @@ class C13(Prop):
 
         s = sim.source
         method = bool(s.draw(2, "method"))
-        n_callers = 2 + s.weighted((3, 3, 2), "ncallers")
-        n_keys = 1 + s.weighted((3, 2), "nkeys")
+        n_callers = 2 + s.weighted((3, 3, 2, 1, 1), "ncallers")
+        n_keys = 1 + s.weighted((3, 2, 1), "nkeys")
+        scoped = [s.chance(1, 3, "caller-in-scope") for _ in range(n_callers)]
         limit = 1 + s.weighted((3, 2), "limit")
         exp_steps = (None, 1024)[s.weighted((2, 1), "exp")]
         expiration = None if exp_steps is None else exp_steps * GRID
@@ -103,6 +104,8 @@ class C13(Prop):
             for _ in range(1 + s.weighted((3, 2, 1), "ncancel")):
                 cancels.append(s.draw(n_callers, "victim"))
         victim = s.draw(n_callers, "sweep-victim") if profile == "sweep" else None
+        for c_, sc in zip(callers, scoped):
+            c_["in_scope"] = int(sc)
         sim.program = {"method": method, "callers": callers, "limit": limit, "expiration_steps": exp_steps,
                        "invocations": inv_specs, "clock_jumps": jumps, "cancel_victims": cancels,
                        "sweep_victim": victim, "cancel_at_iteration": sim.inject_choice if profile == "sweep" else 0}
@@ -217,7 +220,13 @@ class C13(Prop):
                         o["stale_limit"] = sim.now
 
             try:
-                r = await FirstStep(cached(key), after_first_step)
+                if callers[c]["in_scope"]:
+                    # the caller works inside its own scope: the shared invocation must not become a task of that scope
+                    from haiway import ctx
+                    async with ctx.scope(f"caller{c}"):
+                        r = await FirstStep(cached(key), after_first_step)
+                else:
+                    r = await FirstStep(cached(key), after_first_step)
             except asyncio.CancelledError as exc:
                 o["kind"], o["obj"] = "cancelled", exc
             except BaseException as exc:  # noqa: BLE001
